@@ -58,7 +58,7 @@ def replicas(loop):
 
 
 @st.composite
-def dowhile_case(draw, kmax=13, kmin_bias=12, two_stage=True, allow_same_names=True, max_S=2):
+def dowhile_case(draw, kmax=13, kmin_bias=12, two_stage=True, allow_same_names=True, max_S=2, allow_reload=True):
     S = draw(st.integers(0, max_S))
     # every stage below the import stage needs a component (stages are contiguous); one more producer anywhere <= S
     outer = [{"name": OUTER_NAMES[s], "stage": s} for s in range(S)]
@@ -161,7 +161,10 @@ def dowhile_case(draw, kmax=13, kmin_bias=12, two_stage=True, allow_same_names=T
         cons.append({"name": CONS_NAMES[i], "stage": stage, "uses": uses, "aggregate": agg})
 
     k = draw(st.one_of(st.integers(0, kmax), st.integers(min(kmin_bias, kmax), kmax)))
-    return {"S": S, "outer": outer, "binds": binds, "loop": loop, "cond": cond, "cons": cons, "k": k}
+    # optionally the instance is loaded again from disk after `reload_at` iterations (a restart), then unrolled further
+    reload_at = draw(st.one_of(st.none(), st.integers(0, k), st.integers(min(10, k), k))) if allow_reload else None
+    return {"S": S, "outer": outer, "binds": binds, "loop": loop, "cond": cond, "cons": cons, "k": k,
+            "reload_at": reload_at}
 
 
 # ------------------------------------------------------------------------------------------------------------
@@ -272,6 +275,7 @@ def _shift(case, d, suffix, tag):
         x["name"] += suffix
     c["tag"] = tag
     c.pop("k", None)
+    c.pop("reload_at", None)
     return c
 
 
